@@ -54,21 +54,18 @@ def documented : List Entry := [
   -- does not exist you get back an undefined value"
   ⟨"environment", "Environment.getitem", 0, itemSignals, ["getitem", "hash", "eq", "index"], false, .undefined,
     "obj[argument]: the object is not subscriptable / has no such item"⟩,
-  ⟨"environment", "Environment.getitem", 2, attrSignals, ["getattr"], false, .undefined,
-    "getattr(obj, str(argument)) after the item lookup failed"⟩,
-  -- (once F15 is repaired by dropping the `try: str(argument)` wrapper, the getattr handler becomes handler #1)
+  -- (`str(argument)` of a str-subclass key is *not* guarded: an exception from its `__str__` propagates — F15, repaired in
+  -- /repo 9a4c10c; the fault-injection run keeps a str-subclass key among its probes)
   ⟨"environment", "Environment.getitem", 1, attrSignals, ["getattr"], false, .undefined,
-    "getattr(obj, str(argument)) after the item lookup failed (numbering after the F15 repair)"⟩,
+    "getattr(obj, str(argument)) after the item lookup failed"⟩,
   ⟨"sandbox", "SandboxedEnvironment.getitem", 1, attrSignals, ["getattr"], false, .undefined,
-    "sandboxed getattr(obj, str(argument)) after the item lookup failed (numbering after the F15 repair)"⟩,
+    "sandboxed getattr(obj, str(argument)) after the item lookup failed"⟩,
   ⟨"environment", "Environment.getattr", 0, attrSignals, ["getattr"], false, .fallback,
     "getattr(obj, attribute) failed: try obj[attribute]"⟩,
   ⟨"environment", "Environment.getattr", 1, itemSignals, ["getitem", "hash", "eq", "index"], false, .undefined,
     "obj[attribute] after the attribute lookup failed"⟩,
   ⟨"sandbox", "SandboxedEnvironment.getitem", 0, ["TypeError", "LookupError"], ["getitem", "hash", "eq", "index"], false, .undefined,
     "sandboxed obj[argument]"⟩,
-  ⟨"sandbox", "SandboxedEnvironment.getitem", 2, attrSignals, ["getattr"], false, .undefined,
-    "sandboxed getattr(obj, str(argument)) after the item lookup failed"⟩,
   ⟨"sandbox", "SandboxedEnvironment.getattr", 0, attrSignals, ["getattr"], false, .fallback,
     "sandboxed getattr(obj, attribute) failed: try obj[attribute]"⟩,
   ⟨"sandbox", "SandboxedEnvironment.getattr", 1, ["TypeError", "LookupError"], ["getitem", "hash", "eq", "index"], false, .undefined,
@@ -134,17 +131,6 @@ def documented : List Entry := [
   ⟨"utils", "LRUCache.__getitem__", 0, ["ValueError"], [], false, .internal, "queue bookkeeping of the cache"⟩,
   ⟨"utils", "LRUCache.__delitem__", 0, ["ValueError"], [], false, .internal, "queue bookkeeping of the cache"⟩,
   ⟨"utils", "Namespace.__getattribute__", 0, ["KeyError"], [], false, .translate, "namespace attribute missing: AttributeError (then undefined); the namespace's own dict"⟩
-]
-
-/-- KNOWN FINDING F15 (`C38:swallow:getitem-str-argument`): `{{ d[k] }}` with `k` an instance of a str subclass calls
-    `str(k)` under `except Exception: pass`; *any* exception from the key's `__str__` is swallowed.  Not documented
-    anywhere; kept apart from `documented` so that the full-strength statement (`BroadHandlersOkStatement`) is visibly
-    false on exactly these two rows. -/
-def knownFindingSites : List Entry := [
-  ⟨"environment", "Environment.getitem", 1, ["Exception"], ["str"], false, .undefined,
-    "F15: str(argument) of a str-subclass key: every exception swallowed"⟩,
-  ⟨"sandbox", "SandboxedEnvironment.getitem", 1, ["Exception"], ["str"], false, .undefined,
-    "F15: str(argument) of a str-subclass key: every exception swallowed"⟩
 ]
 
 /-- The allow-list of *broad* handlers (Exception / BaseException / bare) at render time that do not re-raise the same
@@ -258,10 +244,7 @@ def expectedWith (tbl : List Entry) (stack : List Frame) (hook : String) (bases 
     else if universalSignal stack hook bases then .signal
     else walkOuter tbl bases rest
 
-/-- the documented expectation (known findings are *not* part of it) -/
+/-- the documented expectation -/
 def expected := expectedWith documented
-
-/-- the expectation with the known-finding rows added (what the unchanged tree is known to do) -/
-def expectedKnown := expectedWith (documented ++ knownFindingSites)
 
 end JinjaV.ExceptPolicy
